@@ -38,7 +38,7 @@ def r_prov(E):
                     f"{s.func} builds a {s.ctor} whose value depends on {_fmt(miss)} but records only "
                     f"{_fmt({(r[0], r[1]) for r in s.parents}) or 'no parent'}: editing that input does not recompute "
                     f"{c}.{x} (and whatever derives from it)", s.path, s.node.lineno, s.func,
-                    {"context": f"{c}.update_{x}", "clauses": ["all"] + (["footprint"] if "footprint" in x else [])}))
+                    {"context": f"{c}.update_{x}", "clauses": ["all"] + (["footprint"] if "footprint" in x else []) + (["infra"] if "InfraHardware" in pm.mro(c) else [])}))
         for w in cx.writes.get(x, []):
             # one obligation set per branch alternative of the written value (a parent recorded on one arm of an
             # if/else must not hide its absence on the other arm)
@@ -62,7 +62,7 @@ def r_prov(E):
                     f"sign, loop bound or dispatch — without any of its recorded ancestors leading back to it: an "
                     f"edit of that input leaves {c}.{x} stale", w.path, w.node.lineno, w.func,
                     {"context": f"{c}.update_{x}", "recorded": _fmt({(r[0], r[1]) for r in w.parents}),
-                     "clauses": ["all"] + (["footprint"] if "footprint" in x else [])}))
+                     "clauses": ["all"] + (["footprint"] if "footprint" in x else []) + (["infra"] if "InfraHardware" in pm.mro(c) else [])}))
             elif len(res.samples) < 6 and deps:
                 res.samples.append({"context": f"{c}.update_{x}", "site": norm(w.node)[:100],
                                     "dependencies": _fmt(deps)[:8],
